@@ -158,6 +158,8 @@ pub fn run_child(profile: &str, args: &[&str], stdin_data: &str, watchdog: Durat
 // engine
 // ---------------------------------------------------------------------------------------------
 
+pub static WATCHDOG_EXPIRIES: std::sync::atomic::AtomicU32 = std::sync::atomic::AtomicU32::new(0);
+
 pub struct PipelineEngine {
     pub prop: String,
     pub cfg: GenCfg,
@@ -392,6 +394,15 @@ impl Engine for PipelineEngine {
     fn max_shrink_iters(&self) -> u32 {
         400
     }
+    fn tolerated_inconclusive_fraction(&self) -> f64 {
+        // C06: termination is the property -- a case that stays silent even under the long
+        // watchdog makes the run inconclusive (exit 2); it is never reported as a violation
+        if self.prop == "C06" {
+            0.0
+        } else {
+            0.2
+        }
+    }
 
     fn eval(&self, tape: &Tape) -> CaseOutcome {
         let mut o = CaseOutcome::new(tape.digest());
@@ -405,6 +416,14 @@ impl Engine for PipelineEngine {
             }
         };
         let mut classes: Vec<String> = inst_classes(&fl).iter().map(|s| s.to_string()).collect();
+        // circuit breaker: after several watchdog expiries in this worker the remaining cases are
+        // not executed (a systematic hang would otherwise cost 20 s per case); the run then ends
+        // inconclusive (exit 2)
+        if WATCHDOG_EXPIRIES.load(std::sync::atomic::Ordering::SeqCst) >= 6 {
+            o.inconclusive = Some("not executed: circuit breaker after 6 watchdog expiries in this worker".into());
+            o.classes = classes;
+            return o;
+        }
         let input_s = input.to_string();
         let mut sample = json!({"instance": fl.summary()});
         if std::env::var("RSV_DUMP_INPUT").is_ok() {
@@ -412,7 +431,21 @@ impl Engine for PipelineEngine {
         }
         let mut nontrivial_any = false;
         for profile in &self.profiles {
-            let r = run_child(profile, &["solve-one"], &input_s, self.watchdog, &[]);
+            let mut r = run_child(profile, &["solve-one"], &input_s, self.watchdog, &[]);
+            if matches!(r, ChildResult::Timeout) && self.prop == "C06" {
+                // slow or hanging? one retry with a five times longer watchdog (at most one
+                // such retry per worker process, so a systematic hang cannot stall the run)
+                static RETRIES: std::sync::atomic::AtomicU32 = std::sync::atomic::AtomicU32::new(0);
+                if RETRIES.fetch_add(1, std::sync::atomic::Ordering::SeqCst) < 1 {
+                    r = run_child(profile, &["solve-one"], &input_s, self.watchdog * 5, &[("RSV_SNAPSHOTS", "0")]);
+                    classes.push(if matches!(r, ChildResult::Timeout) { "timeout_confirmed_with_long_watchdog".to_string() } else { "slow_case_answered_under_long_watchdog".to_string() });
+                    if matches!(r, ChildResult::Timeout) {
+                        let dir = crate::runner::verif_root().join("replay").join("C06").join("timeouts");
+                        let _ = std::fs::create_dir_all(&dir);
+                        let _ = std::fs::write(dir.join(format!("{:016x}.json", tape.digest())), json!({"property": "C06", "engine": "pipeline", "tape": tape.to_json(), "input": input, "note": format!("no answer within {:?} ({} build)", self.watchdog * 5, profile)}).to_string());
+                    }
+                }
+            }
             match r {
                 ChildResult::Answer { output, snapshots } => {
                     let (mut fs, facts, _parsed) = ojson::validate(&fl, &output);
@@ -474,6 +507,7 @@ impl Engine for PipelineEngine {
                     break;
                 }
                 ChildResult::Timeout => {
+                    WATCHDOG_EXPIRIES.fetch_add(1, std::sync::atomic::Ordering::SeqCst);
                     classes.push(format!("timeout_{}", profile));
                     o.inconclusive = Some(format!("[{}] no answer within {:?}", profile, self.watchdog));
                 }
